@@ -348,11 +348,14 @@ theorem resources_released (g : Bool) (s : State) (hr : Reachable g s) (hc : s.c
 connection of the model is open: `coordinator()`, `nextGeneration` and `leaveGroup` close what they opened on
 every path. -/
 theorem loop_exit_closes_connections (g : Bool) (s : State) (hr : Reachable g s) (hl : s.loop = 0) :
-    s.lconns = 0 ∧ s.member = none :=
+    s.lconns = 0 ∧ (s.member = none ∨ s.leaveFail = true) :=
   ⟨((reachable_inv g s hr).loop0 hl).2.2, ((reachable_inv g s hr).loop0 hl).1⟩
 
-/-- **left_group_on_close** — when Close has returned the group loop holds no member id any more … -/
-theorem left_group_on_close (g : Bool) (s : State) (hr : Reachable g s) (hc : s.close = 3) : s.member = none := by
+/-- **left_group_on_close** — when Close has returned the group loop holds no member id any more (it left the group,
+or the id was dropped as below), unless the coordinator lookup that `leaveGroup` needs failed since the last
+successful join (an unreachable coordinator cannot be told) … -/
+theorem left_group_on_close (g : Bool) (s : State) (hr : Reachable g s) (hc : s.close = 3) :
+    s.member = none ∨ s.leaveFail = true := by
   have hi := reachable_inv g s hr
   exact (hi.loop0 (hi.done hc).2.1).1
 
